@@ -462,7 +462,8 @@ struct BrokenWhileStopped;
 const STOPPERS: [&str; 4] = ["STOP", "END", "A$=INKEY$:IF A$=\"\" THEN 50", "DELETE 40"];
 const BREAKING_EDITS: [&str; 8] = ["DELETE 40", "40", "DELETE 30-40", "20 GOTO 77", "60 GOTO 77", "35 WEND", "DELETE 40-", "LOAD \"bad\""];
 /// the file LOADed by the last edit: a program with a dangling reference
-const BAD_FILE: &str = "10 PRINT \"m10\";\n20 PRINT \"m20\";:GOTO 77\n30 PRINT \"m30\";\n40 PRINT \"m40\";\n50 PRINT \"m50\";\n55 PRINT \"m55\";\n";
+/// (long enough for any stale resume address of the stopped program to fall inside it)
+const BAD_FILE: &str = "10 PRINT \"m10\";\n20 PRINT \"m20\";:GOTO 77\n30 PRINT \"m30\";\n40 PRINT \"m40\";\n50 PRINT \"m50\";\n55 PRINT \"m55\";\n60 PRINT \"m60\";:PRINT \"m61\";:PRINT \"m62\";:PRINT \"m63\";\n70 PRINT \"m70\";:PRINT \"m71\";:PRINT \"m72\";:PRINT \"m73\";\n80 PRINT \"m80\";:PRINT \"m81\";:PRINT \"m82\";:PRINT \"m83\";\n90 PRINT \"m90\";:PRINT \"m91\";:PRINT \"m92\";:PRINT \"m93\";\n";
 const RESUMES: [&str; 9] = ["CONT", "RETURN", "NEXT", "GOTO 10", "GOSUB 30", "RUN", "RUN 20", "ON 1 GOTO 30", "IF 1 THEN 30"];
 
 impl Sweep for BrokenWhileStopped {
